@@ -148,6 +148,17 @@ CHECKS = {
             "Trusted: TLC; pyfaidx/pyBigWig file round trip; windows touching a chromosome end are 'either'; excluded chromosomes "
             "are removed before the round-robin.",
             "DESIGN.md §5 C16"),
+    "C17": (["MatchOps", "Match", "Match_Trace"],
+            "step-shaped TLA+ model of the GC-bin allocation loop (Match.tla; as-found guard as spec-level mutant) model-checked "
+            "with TLC (safety at every step, liveness); every histogram of the model realised as a synthetic genome and the real "
+            "extract_matching_loci decided by Match_Trace with the same predicates",
+            "TLC explores the allocation for every (loci, background) histogram of the scope and checks conservation, the per-bin "
+            "bounds at every step, the four allocation predicates at termination and termination. Each histogram becomes a genome "
+            "(designed GC / N / signal tiles, masked and decoy tiles, both window relations) on which the implementation's returned "
+            "loci must be aligned, unique, unmasked, N- and signal-eligible, satisfy the allocation predicates and not depend on "
+            "n_jobs.",
+            "Trusted: TLC; tile facts computed by the driver from the generated genome; pyfaidx / pyBigWig; in_window = 8.",
+            "DESIGN.md §5 C17"),
 }
 
 ALL = ["C%02d" % i for i in range(1, 21)]
